@@ -1,5 +1,5 @@
 """C02 Optimisation settings never change program behaviour: differential against -Q0 on the same route."""
-import os
+import hashlib, os
 
 from .. import progcheck as PC
 from .. import run as R
@@ -102,7 +102,7 @@ def compare(tc, src, cfgs, ev, h, croute_cfgs=()):
                 if o.lines != base.lines or o.cls != base.cls:
                     i2, a, b = PC.first_diff(base.lines, o.lines)
                     what = "config %s on route %s: exit class -Q0 %s vs %s; first difference at line %d: -Q0 %r, config %r" % (" ".join(cfg), route, base.cls, o.cls, i2, a, b)
-                    return Fail({"kind": "mismatch", "route": route, "config": " ".join(cfg), "what": what}, {"src": src, "route": route, "config": cfg})
+                    return Fail({"kind": "mismatch", "route": route, "config": " ".join(cfg), "src_sha": hashlib.sha256(src.encode()).hexdigest()[:16], "what": what}, {"src": src, "route": route, "config": cfg})
     return None
 
 
